@@ -220,6 +220,17 @@ pub fn events() -> Vec<Line> {
     TxSpec { ins: vec![input((t2[1], 0))], outs: vec![] },
     TxSpec { ins: vec![input((t2[3], 1))], outs: vec![OutSpec::P2wpkh, rs_out(&cen)] },
   ]);
+  // block D: an inscription created directly on a valued OP_RETURN output (single-output reveal),
+  // another one created on a plain output and then moved onto an OP_RETURN output in block E
+  let mut d = s.fund();
+  d.witness = ins_w("born-burned", vec![]);
+  let mut e = s.fund();
+  e.witness = ins_w("burned-later", vec![]);
+  let t4 = s.block(&[
+    TxSpec { ins: vec![d], outs: vec![opret()] },
+    TxSpec { ins: vec![e], outs: vec![OutSpec::P2wpkh] },
+  ]);
+  s.block(&[TxSpec { ins: vec![input((t4[2], 0))], outs: vec![opret(), OutSpec::P2wpkh] }]);
   s.block(&[]);
   vec![s.c.line()]
 }
